@@ -225,8 +225,8 @@ impl Property for C12 {
     }
     fn runs(&self, tier: Tier) -> u64 {
         match tier {
-            Tier::Quick => 150_000,
-            Tier::Thorough => 6_000_000,
+            Tier::Quick => 2_000_000,
+            Tier::Thorough => 30_000_000,
         }
     }
     fn gen(&self, run_seed: u64, _tier: Tier) -> Value {
